@@ -18,15 +18,15 @@ LEVEL = "proof"
 PROPS_FILE = "C03.v"
 RUN_MODULE = "RunC03"
 TRANSLATOR_UNITS = []
-SHARD = 60
+SHARD = 42
 F7 = "F7-async-reset-runs-sync-process"
 RULE = ("designs: 1-3 clock domains (pos/neg edge; sync / async / no reset) defined in the top module, hierarchy depth <= 2, "
         "statements built with the Module DSL (If/Else, Switch/Case/Default, assignments to whole signals, slices, part-selects, "
         "Cat) from exprgen expressions; every state signal (or each half of a bitwise split one) has one driver (fragment, "
         "domain); reset-less signals; comb signals without loops. wrappers: stacks of <= 4 ResetInserter / EnableInserter / "
-        "DomainRenamer (alias->real, real->real merging) in all orders on any node (quick: all stacks of length <= 2 and a "
-        "sample of longer ones on a fixed design, then random). events: every subset of {clk_i toggle, rst_i toggle} in "
-        "shuffled blocks plus random control / input changes, <= 40 events (thorough 120), one ctx.set(Cat(..)) per event. "
+        "DomainRenamer (alias->real, real->real merging) in all orders on any node (all stacks of length <= 2 over a 6-wrapper alphabet, "
+        "a sample of length 3-4 (thorough: all of length 3) on a fixed design, then random). events: every subset of {clk_i toggle, rst_i toggle} in "
+        "shuffled blocks plus random control / input changes, <= 40 events (thorough 80), one ctx.set(Cat(..)) per event. "
         "non-trivial = at least one wrapper (x) / some driven signal changes during the trace (t, s); distinct by case hash")
 MODELLED = ("_xfrm.py LHSMaskCollector / _ControlInserter / ResetInserter / EnableInserter / DomainRenamer.map_statements, "
             "Fragment.add_statements, _pyrtl._FragmentCompiler per-domain processes + edge_waker, pysim step_design/commit "
@@ -592,14 +592,14 @@ def gen_cases(tier, seed):
     longer = []
     for n in (3, 4):
         allp = list(itertools.product(range(len(alpha)), repeat=n))
-        longer += allp if thorough else rng.sample(allp, 40 if n == 3 else 60)
+        longer += (allp if n == 3 else rng.sample(allp, 400)) if thorough else rng.sample(allp, 40 if n == 3 else 60)
     for st in stacks + longer:
         stack = [alpha[i] for i in st]
         cases.append(fixed_case("x", stack, rng, 0))
-        if len(st) <= 2 or rng.random() < (1.0 if thorough else 0.5):
+        if len(st) <= 2 or rng.random() < 0.5:
             cases.append(fixed_case("t", stack, rng, 40))
-    nrand = 2500 if thorough else 420
-    nev = 120 if thorough else 40
+    nrand = 1600 if thorough else 420
+    nev = 80 if thorough else 40
     for k in range(nrand):
         q = k % 10
         if q < 3:
